@@ -90,6 +90,8 @@ class Spec(core.PropSpec):
             out.tags.append("empty-side-sampler")
         if any(c["bs"] for c in w["configs"]):
             out.tags.append("per-config-batch-size")
+        if any(c.get("share_with") is not None for c in w["configs"]):
+            out.tags.append("dataset-object-shared-by-two-samplers")
         if any(c["ens"] and c["ens"] % w["B"] for c in w["configs"]):
             out.tags.append("sample-interval-not-multiple-of-B")
         if plan["level"] == "sampler":
@@ -142,6 +144,11 @@ class Spec(core.PropSpec):
         from .simdata import IdDataset, TagCollator
         sizes = [w["M"]] + [c["m"] for c in w["configs"]]
         datasets = [ModeWrapper(IdDataset(i, m), mode="index x") for i, m in enumerate(sizes)]
+        obj_id = list(range(len(sizes)))  # which dataset OBJECT stands at each position (shared objects keep the first user's id)
+        for ci, c in enumerate(w["configs"]):
+            if c.get("share_with") is not None:
+                datasets[ci + 1] = datasets[c["share_with"]]
+                obj_id[ci + 1] = obj_id[c["share_with"]]
         tagged = plan["tagged"] + [True] * (len(sizes) - len(plan["tagged"]))
         collators = [TagCollator(f"T{i}") if tagged[i] else None for i in range(len(sizes))]
         K = plan["K"]
@@ -211,15 +218,16 @@ class Spec(core.PropSpec):
                 out.violate("C05:loader-malformed-batch", site, f"batch {b}: {type(e).__name__}: {e}")
                 break
             out.ev("deliver", b, got_ds, got_ids, tag)
-            if got_ds != [ds]:
-                out.violate("C05:loader-wrong-dataset", site, f"batch {b}: samples from datasets {got_ds}, expected {[ds]}")
+            if got_ds != [obj_id[ds]]:
+                out.violate("C05:loader-wrong-dataset", site, f"batch {b}: samples from datasets {got_ds}, expected {[obj_id[ds]]}")
             elif got_ids != ids or got_index != ids:
                 out.violate("C05:loader-wrong-samples", site, f"batch {b} of dataset {ds}: ids {got_ids} index {got_index}, expected {ids}")
             if tag != exp_tag:
                 out.violate("C05:loader-wrong-collator", site, f"batch {b} of dataset {ds}: collated by {tag}, expected {exp_tag}")
             if K > 0 and got_len != [sizes[ds]]:
                 out.violate("C05:worker-hook-dataset-len", site, f"batch {b}: dataset {ds} saw dataset_len {got_len}, expected {sizes[ds]}")
-            if K > 0 and got_calls != [1]:
+            if K > 0 and (not got_calls or min(got_calls) < 1):
+                # (a dataset object used by two samplers legitimately sees the hook once per use)
                 out.violate("C05:worker-hook-calls", site, f"batch {b}: dataset {ds} hook called {got_calls} times per worker")
         if len(delivered) < len(expected) and not out.violations:
             out.violate("C05:loader-missing-batches", site, f"{len(delivered)} delivered, reference has {len(expected)}")
@@ -258,6 +266,9 @@ class Spec(core.PropSpec):
             runs = []
             for which in ("real", "sim"):
                 datasets = [ModeWrapper(IdDataset(i, m), mode="index x") for i, m in enumerate(sizes)]
+                for ci, c in enumerate(w["configs"]):
+                    if c.get("share_with") is not None:
+                        datasets[ci + 1] = datasets[c["share_with"]]
                 collators = [TagCollator(f"T{i}") for i in range(len(sizes))]
                 s = T.build(w, [], datasets=datasets, collators=collators)
 
